@@ -4,4 +4,4 @@ From Martian.C02 Require Import Model.
 Extraction Language OCaml.
 Extraction "model.ml" base_anchor fixed asis model_obs spec_obs c02_fail c02_ok agrees
   conn_fail traces_eqb
-  ex cl_skip_ex cl_error_ex cl_resmod_ex cl_reqmod_ex cl_relay_ex.
+  ex cl_skip_ex cl_error_ex cl_resmod_ex cl_reqmod_ex cl_relay_ex conc_ok conc_run.
